@@ -491,9 +491,16 @@ def run(ctx, chk, tier):
     import ast as _ast
     from ..conform import bind, signature
     f = ctx.db.function(RC + "_find_support_thresholds")
-    ctrl = _ast.parse("f(scores=s, fnr=a, fpr=b, thresholds=c, nb_points=d)").body[0].value
-    if bind(signature(f, False), ctrl) in (None, "skip"):
-        chk.unknown("R16.1", "positive control failed: a 5-argument call of the 7-parameter helper was accepted")
+    sig_ = signature(f, False)
+    # positive control: a call that leaves the helper's last REQUIRED parameter out must be rejected
+    a_ = f.node.args
+    nreq = len(a_.posonlyargs + a_.args) - len(a_.defaults)
+    req_kwonly = [k.arg for k, d in zip(a_.kwonlyargs, a_.kw_defaults) if d is None]
+    if nreq + len(req_kwonly) >= 1:
+        names_ = [p.arg for p in (a_.posonlyargs + a_.args)[:nreq]] + req_kwonly
+        ctrl = _ast.parse("f(%s)" % ", ".join("%s=x" % n_ for n_ in names_[:-1])).body[0].value
+        if bind(sig_, ctrl) in (None, "skip"):
+            chk.unknown("R16.1", "positive control failed: a call of the support-point helper without its required parameter %r was accepted" % names_[-1])
     rule_of_three(ctx, chk)
     aggregate(ctx, chk)
     band_functions(ctx, chk)
